@@ -213,8 +213,15 @@ class ResponseHandler(BaseProtocol, DataQueue[tuple[RawResponseMessage, StreamRe
     def resume_reading(self, resume_parser: bool = True) -> None:
         was_paused = self._reading_paused
         super().resume_reading(resume_parser)
-        if was_paused:
-            self._reschedule_timeout()
+        if not was_paused or self.transport is None:
+            return
+        # Resuming the parser may just have completed the payload (and released
+        # the connection to the pool): nothing more is expected to be read, a
+        # timer armed now would fire on the idle connection and poison it.
+        payload = self._payload
+        if payload is not None and self._payload_parser is None and payload.is_eof():
+            return
+        self._reschedule_timeout()
 
     def set_exception(
         self,
